@@ -20,6 +20,9 @@ import (
 	"errors"
 	"fmt"
 	"runtime/debug"
+	"syscall"
+	"time"
+	"verifmc/kern"
 
 	"github.com/talostrading/sonic"
 	"github.com/talostrading/sonic/codec/frame"
@@ -439,6 +442,69 @@ func c19HostileBody(ins [][]byte) func(x *engine.X) {
 	}
 }
 
+// c19FifoBody: the same codec over a REAL non-blocking transport — a sonic File on the write end of a one-page pipe —
+// so that "would-block in the middle of an item" is the kernel's: an item of three pages or more leaves in several
+// pieces, with the raw reader draining a page (or everything) between poll cycles. The bytes the reader collects must
+// be the reference encoding of the items, every callback runs once with the payload length.
+func c19FifoBody(x *engine.X) {
+	ioc, err := sonic.NewIO()
+	if err != nil {
+		engine.HarnessError("NewIO: %v", err)
+	}
+	r, w, _ := kern.Pipe(4096)
+	f, err := sonic.Open(ioc, fmt.Sprintf("/proc/self/fd/%d", w), syscall.O_WRONLY|syscall.O_NONBLOCK, 0)
+	syscall.Close(w)
+	if err != nil {
+		engine.HarnessError("Open: %v", err)
+	}
+	x.Defer(func() { f.Close(); syscall.Close(r); ioc.Close() })
+	src, dst := sonic.NewByteBuffer(), sonic.NewByteBuffer()
+	cc, _ := sonic.NewCodecConn[[]byte, []byte](f, frame.NewCodec(src), src, dst)
+	shapes := [][]int{{12285}, {20000}, {12285, 5}, {5, 12285}, {4092, 4093}}
+	sizes := shapes[x.Pick(len(shapes), "item sizes")]
+	x.Note("fifo items %v", sizes)
+	x.Nontrivial()
+	var want, got []byte
+	buf := make([]byte, 1<<16)
+	drain := func(max int) {
+		if n, err := syscall.Read(r, buf[:max]); err == nil && n > 0 {
+			got = append(got, buf[:n]...)
+		}
+	}
+	for i, sz := range sizes {
+		it := payloadBytes(i+1, sz)
+		want = append(want, refEncode(it)...)
+		calls := 0
+		var cerr error
+		cc.AsyncWriteNext(it, func(err error, n int) { calls++; cerr = err })
+		for step := 0; step < 40 && calls == 0; step++ {
+			if x.Deviate(2, "the reader drains a page / everything") == 1 {
+				drain(1 << 16)
+			} else {
+				drain(4096)
+			}
+			ioc.PollOne()
+		}
+		if calls != 1 || cerr != nil {
+			x.Fail("codecconn.AsyncWriteNext/callbacks", "item %d (%d bytes) over a one-page pipe whose reader keeps draining: callback ran %d times, err=%v", i, sz, calls, cerr)
+		}
+	}
+	for i := 0; i < 8; i++ {
+		drain(1 << 16)
+	}
+	if string(got) != string(want) {
+		at := 0
+		for at < len(got) && at < len(want) && got[at] == want[at] {
+			at++
+		}
+		x.Fail("codecconn.write/peer-bytes", "items %v written through a one-page pipe: the reader collected %d bytes, the reference encoding has %d; first difference at offset %d", sizes, len(got), len(want), at)
+	}
+	if dst.ReadLen() != 0 || dst.WriteLen() != 0 {
+		x.Fail("codecconn.write/left-behind", "after the writes the write buffer still holds ReadLen=%d WriteLen=%d", dst.ReadLen(), dst.WriteLen())
+	}
+	x.Outcome(fmt.Sprintf("fifo/%d items", len(sizes)))
+}
+
 func c19DFS(tier, which string) *engine.DFS {
 	dev := 2
 	if tier == "thorough" {
@@ -449,6 +515,8 @@ func c19DFS(tier, which string) *engine.DFS {
 		return &engine.DFS{Name: "write@" + tier, Body: c19WriteBody, Threads: 16, ShardDepth: 3, MaxDeviations: 2}
 	case "read":
 		return &engine.DFS{Name: "read@" + tier, Body: c19ReadBody, Threads: 16, ShardDepth: 3, MaxDeviations: dev, MaxPoints: 700}
+	case "fifo":
+		return &engine.DFS{Name: "fifo@" + tier, Body: c19FifoBody, Procs: 4, WorkerProcs: 1, ShardDepth: 1, MaxDeviations: 2, MaxPoints: 200, HangTimeout: 30 * time.Second}
 	case "allsizes":
 		return &engine.DFS{Name: "allsizes@" + tier, Body: c19AllSizesBody, Threads: 16, ShardDepth: 1, MaxDeviations: 0}
 	default:
@@ -459,7 +527,7 @@ func c19DFS(tier, which string) *engine.DFS {
 func C19(tier string) *engine.Report {
 	rep := engine.NewReport("C19", tier, "exploration")
 	var tot engine.DFSTotals
-	for _, w := range []string{"write", "read", "allsizes", "hostile"} {
+	for _, w := range []string{"write", "read", "allsizes", "hostile", "fifo"} {
 		tot.Add(c19DFS(tier, w).Run(), rep)
 	}
 	for _, v := range c19LimitBoundary() {
@@ -468,7 +536,7 @@ func C19(tier string) *engine.Report {
 	rep.Coverage["limit_boundary"] = "payloads of exactly the limit (1 GiB) and limit+1 through Encode; headers declaring limit and limit+1 through Decode"
 	tot.Fill(rep, "payload sequences (<=3 items over 6 sizes) written through a real CodecConn+frame.Codec (blocking/async, partial acceptance, deferred completion) and compared byte-for-byte with the reference encoding; "+
 		"the reference-encoded stream read back through a second CodecConn under all cut sets of up to N cuts around every boundary/header byte, whole and byte-by-byte, blocking/async inline/deferred; "+
-		"hostile 4-byte prefixes (all over-limit ones and those <=128 KiB) x tails x all cut sets; non-trivial = segmented, partial, deferred or multi-item", 2)
+		"items of 3-5 pages written asynchronously through a real one-page pipe (a sonic File) whose reader drains a page or everything between polls; hostile 4-byte prefixes (all over-limit ones and those <=128 KiB) x tails x all cut sets; non-trivial = segmented, partial, deferred or multi-item", 2)
 	return rep
 }
 
